@@ -132,6 +132,21 @@ def _plain(gs, w, t, depth=0):
     return None
 
 
+def too_long(rng, cap):
+    """A string that does not fit `cap` bytes (data + NUL, slot-rounded): plain
+    ASCII well beyond it, or multi-byte text whose *character* count would fit
+    while its UTF-8 length does not."""
+    capr = (cap + 7) // 8 * 8
+    r = rng.random()
+    if r < 0.5 or capr < 4:
+        return rng.choice("yzq") * (capr + rng.choice([0, 1, 9, 40]))
+    if r < 0.8:
+        k = capr // 2 + rng.choice([0, 1])  # 2k+1 > capr, k+1 <= capr
+        return "é" * max(k, 1)
+    k = capr // 3 + 1  # 3k+1 > capr
+    return "日" * k
+
+
 def gen_string_long(gs, w):
     rng = gs.rng
     got = gs._pick_path(w, lambda s, t, n, p: s[t]["k"] == "str" and n.cap is not None)
@@ -139,8 +154,7 @@ def gen_string_long(gs, w):
         return None
     o, p, t, n = got
     # len + NUL > capacity, beyond any slot rounding of the capacity
-    ln = (n.cap + 7) // 8 * 8 + rng.choice([0, 1, 9, 40])
-    return {"obj": o.k, "path": p, "value": {"s": rng.choice("yzq") * ln}, "via": gs._via(o)}
+    return {"obj": o.k, "path": p, "value": {"s": too_long(rng, n.cap)}, "via": gs._via(o)}
 
 
 def gen_items_large(gs, w):
@@ -159,7 +173,7 @@ def gen_items_large(gs, w):
         items.append({"s": rng.choice(fits or [x.text])})
     j = rng.randrange(len(items))
     cap = n.items[j].cap
-    items[j] = {"s": "w" * ((cap + 7) // 8 * 8 + rng.choice([0, 3, 20]))}
+    items[j] = {"s": too_long(rng, cap)}
     return {"obj": o.k, "path": p, "value": {"l": items, "shape": list(n.shape)}, "bad_item": j, "via": gs._via(o)}
 
 
